@@ -377,7 +377,9 @@ def i6(ctx, rid):
     is_push = lambda c: c.name == 'push' and any('IndexTrait' in t for t in prog.resolve(c))
     via_helper = any(is_push(c2) for c in rg.calls for t in prog.resolve(c) if t in prog.fns and prog.fns[t].file == rg.file
                      for x in [t] + sorted(L.get(t, ())) if x in prog.fns and prog.fns[x].file == rg.file for c2 in prog.fns[x].calls)
-    if any(is_push(c) for c in rg.calls) or via_helper:
+    # .. or in a closure of the regeneration body itself (`headers.into_iter().try_for_each(|h| self.index.push(..))`)
+    in_family = any(is_push(c) for gid in prog.family(rg.id) if gid in prog.fns for c in prog.fns[gid].calls)
+    if any(is_push(c) for c in rg.calls) or via_helper or in_family:
         ctx.ok(rid, 'regeneration-uses-push', rg.where(), 'headers scanned from the blob are inserted through IndexStruct::push')
     else:
         ctx.bad(rid, 'regeneration-uses-push', rg.where(), 'index regeneration does not insert through IndexStruct::push')
